@@ -30,10 +30,9 @@ IteratorData& getIterData(primesieve_iterator* it)
   return *(IteratorData*) it->memory;
 }
 
-Vector<uint64_t>& getPrimes(primesieve_iterator* it)
-{
-  return getIterData(it).primes;
-}
+/// Returned by primesieve_next_prime() and
+/// primesieve_prev_prime() after an error.
+const uint64_t errorPrimes[1] = { PRIMESIEVE_ERROR };
 
 } // namespace
 
@@ -152,12 +151,15 @@ void primesieve_generate_next_primes(primesieve_iterator* it)
   {
     std::cerr << "primesieve_iterator: " << e.what() << std::endl;
     primesieve_clear(it);
-    auto& primes = getPrimes(it);
-    ASSERT(primes.empty());
-    primes.push_back(PRIMESIEVE_ERROR);
-    getIterData(it).stop = PRIMESIEVE_ERROR;
-    it->primes = primes.data();
-    it->size = primes.size();
+    // The error handler must not allocate memory (the exception
+    // may be std::bad_alloc) and it->memory may still be NULL if
+    // allocating the IteratorData failed.
+    if (it->memory)
+      getIterData(it).stop = PRIMESIEVE_ERROR;
+    else
+      it->start = PRIMESIEVE_ERROR;
+    it->primes = const_cast<uint64_t*>(errorPrimes);
+    it->size = 1;
     it->i = 0;
     it->is_error = true;
     errno = EDOM;
@@ -198,11 +200,8 @@ void primesieve_generate_prev_primes(primesieve_iterator* it)
   {
     std::cerr << "primesieve_iterator: " << e.what() << std::endl;
     primesieve_clear(it);
-    auto& primes = getPrimes(it);
-    ASSERT(primes.empty());
-    primes.push_back(PRIMESIEVE_ERROR);
-    it->primes = primes.data();
-    it->size = primes.size();
+    it->primes = const_cast<uint64_t*>(errorPrimes);
+    it->size = 1;
     it->i = it->size;
     it->is_error = true;
     errno = EDOM;
